@@ -45,7 +45,8 @@ vars == <<bind, made, freed, nfree, hist>>
 None == [k |-> "none", t |-> 0]
 \* "empty" = a sparse output that stores nothing (the kernel's final realloc(crd, 0) may return NULL)
 \* "reordered" = a sparse output produced through TensorMethod(Problem(...)) whose formats do not list the target first
-Kinds == {"sparse", "dense", "scalar", "empty", "reordered"}
+\* "sds" = an order-3 output with a compressed level below a dense one (several guessed-capacity arrays, shrunk at the end)
+Kinds == {"sparse", "dense", "scalar", "empty", "reordered", "sds"}
 
 Reachable(t) == \E n \in Names : bind[n].t = t /\ bind[n].k \in {"tensor", "struct", "iter"}
 Held(t) == \E n \in Names : bind[n].t = t /\ bind[n].k \in {"tensor", "struct"}
